@@ -17,6 +17,23 @@ CLAIMED = {
         "Tied to the code by differential execution of sorting.*/LamportClock.Compare vs the model on all pairs of a pool "
         "and on random sort inputs, plus direct law monitors on the implementation.",
    technique="Coq proof (order laws, insertion-sort model) + differential correspondence vs Go", design="6/C19"),
+ "C20": dict(
+   text="Theorems (Props/C20.v): for every history of create/get/has/get-or-create/restart over any number of keystore "
+        "instances sharing a datastore and any cache capacity >= 1 (each id raw-created at most once), cache coherence is "
+        "invariant, GetKey returns exactly the datastore's key on every instance incl. after eviction and restart, HasKey "
+        "(repaired code) = membership in the datastore; identity creation is idempotent and its id-, public-key- and entry "
+        "signatures verify under the stated signature-correctness hypothesis. Tied to keystore.go/identities.go/orbitdb.go by "
+        "differential execution of op sequences (more ids than the 128-entry cache, 1-6 instances) and direct monitors with real crypto.",
+   technique="Coq proof (LRU/datastore refinement, identity algebra modulo signature oracle) + differential correspondence vs Go", design="6/C20"),
+ "C07": dict(
+   text="Theorems (Props/C07.v): json.Marshal on the fragment toBuffer uses is injective up to the U+FFFD replacement of invalid "
+        "UTF-8; the signed view, folded over the field table regenerated from entry.go by tools/gensigned, determines log id, "
+        "payload (both up to that replacement), next and refs as lists, v, clock id, clock time, additional data; under the stated "
+        "unforgeability assumption every single-field modification, key or signature substitution of an honestly signed entry with "
+        "valid-UTF-8 payload/log id fails Verify; for arbitrary binary payloads the statement is refuted (known findings K1, K1b). "
+        "Tied to the code by the generated table, byte-for-byte comparison with signing bytes validated against real signatures, "
+        "and tamper monitors on Entry.Verify.",
+   technique="Coq proof modulo signature oracle + Go-AST generated field table + differential correspondence vs Go", design="6/C07"),
 }
 NOT_YET = "machinery for this property is still being built in this round (see DESIGN.md section 10); not claimed yet"
 
